@@ -1170,7 +1170,11 @@ func (bc *BlockChain) insertChain2(chain types.Blocks, try int) (int, []interfac
 			currentBlock := bc.CurrentBlock()
 			localTd := bc.GetTd(currentBlock.Hash(), currentBlock.NumberU64())
 			externTd := new(big.Int).Add(bc.GetTd(block.ParentHash(), block.NumberU64()-1), block.Difficulty())
-			if localTd.Cmp(externTd) > 0 {
+			// Only park the block unexecuted if its claimed state is not already
+			// in the database: a never-executed block that names an existing state
+			// root would otherwise count as "block and state present" and its
+			// children would be executed on state it never produced.
+			if localTd.Cmp(externTd) > 0 && !bc.HasState(block.Root()) {
 				if err = bc.WriteBlockWithoutState(block, externTd); err != nil {
 					return i, events, coalescedLogs, err
 				}
